@@ -251,7 +251,9 @@ fn cfg_from_state(s: &Value, keys: &[&str; 3]) -> LintGroupConfig {
 pub fn c11(a: &Args) {
     let mut out = Out::create(a.req("out"));
     let mut rng = Rng::new(a.num("seed", 1));
-    let names: Vec<String> = front::curated_group(Dialect::American).iter_keys().map(|s| s.to_string()).collect();
+    // "rule" means rule name: `Intact` is registered both as a whole-document rule and as a pattern
+    // rule, so iter_keys() lists it twice; partitions are partitions of the set of names
+    let names: Vec<String> = rule_names().into_iter().collect();
     let curated = LintGroupConfig::new_curated();
     let on: Vec<&String> = names.iter().filter(|n| curated.is_rule_enabled(n)).collect();
     let off: Vec<&String> = names.iter().filter(|n| !curated.is_rule_enabled(n)).collect();
